@@ -81,3 +81,31 @@ func VerifHarness_C09_HistoryThenClear() {
 
 func VerifHarness_C09_HistorySave()  { c09History(0) }
 func VerifHarness_C09_HistoryClear() { c09History(1) }
+
+// a failed (or cut) save followed, in the same process, by a later save that completes: the file
+// then holds exactly the later log - nothing of the interrupted attempt leaks into it
+func VerifHarness_C09_HistoryTwoSaves() {
+	path := verifFSRoot() + "/cfg/wtf/search_history.json"
+	old := &SearchHistory{Entries: []SearchEntry{{Query: "old one", ResultsCount: 1}, {Query: "old two", ResultsCount: 2}}, MaxSize: 100}
+	verifFSPutDoc(path, "json", old)
+	sh := NewSearchHistory(path, 100)
+	verifAssert(sh.Load() == nil, "C09: the existing history loads")
+	k := verifInt("k")
+	verifAssume(k >= 0)
+	verifFSWritePlan(path, 1, k) // the write call fails after k bytes
+	sh.AddEntry("new query", 3, "", 5*time.Millisecond)
+	err1 := sh.Save()
+	verifFSWriteUnlimit()
+	if verifBool("anotherSearch") {
+		sh.AddEntry("later query", 1, "", 5*time.Millisecond)
+	}
+	err2 := sh.Save()
+	verifAssert(err2 == nil, "C09: an undisturbed save succeeds")
+	back := NewSearchHistory(path, 100)
+	lerr := back.Load()
+	verifAssert(lerr == nil && c09SameEntries(back.Entries, sh.Entries), "C09: after a later undisturbed save the history file holds exactly the new log (everything saved remains loadable)")
+	if err1 != nil {
+		verifReach("interrupted")
+	}
+	verifReach("completed")
+}
